@@ -2,6 +2,7 @@ import DrummerVerif.Gen.GenPred
 import DrummerVerif.Gen.GenOrder
 import DrummerVerif.Gen.GenFields
 import DrummerVerif.Model.Sched2
+import DrummerVerif.Model.Agent
 /-! Bridge lemmas: each regenerated predicate equals the hand-written model definition the theorems use.
     A fixed tactic portfolio is tried; nothing here is specific to the current shape of the Go code. -/
 namespace Drummer
@@ -12,7 +13,7 @@ macro "bridge" : tactic => `(tactic| first
         Gen.shard_okReplicas, Gen.shard_toStart, Gen.shard_failedReplicas, Gen.shard_available, Gen.repair_quorum,
         Gen.repair_available, Gen.repair_addRequired, Gen.repair_createRequired, Gen.repair_deleteRequired,
         Gen.repair_needToBeRestored, Gen.host_available, Gen.liveFilter_filter, Gen.regionFilter_filter, Gen.deadline_missed,
-        Gen.kv_holder_ok, Gen.kill_version_guard, Gen.is_launch_request, HostSpec.available, liveFilter, isLaunchReq,
+        Gen.kv_holder_ok, Gen.kill_version_guard, Gen.is_launch_request, Gen.agent_incomplete, reportIncomplete, HostSpec.available, liveFilter, isLaunchReq,
         usub64, nodeHostTTL, entityFailed, Replica.failed, Replica.waiting, Shard.quorum, Shard.okReplicas, Shard.toStart,
         Shard.failedReplicas, Shard.available, ShardRepair.quorum, ShardRepair.available, ShardRepair.addRequired,
         ShardRepair.createRequired, ShardRepair.deleteRequired, ShardRepair.needToBeRestored] <;> first | rfl | grind)
@@ -43,6 +44,13 @@ theorem bridge_kvHolder (o n : KVRec) :
     Gen.kv_holder_ok o n = (o.instanceId == n.instanceId || o.instanceId == n.oldInstanceId) := by bridge
 theorem bridge_killGuard (c : Shard) (ci : ShardInfo) : Gen.kill_version_guard c ci = decide (c.cci ≤ ci.cci) := by bridge
 theorem bridge_isLaunchReq (r : Request) : Gen.is_launch_request r = isLaunchReq r := by bridge
+
+/-- client/nodehost.go: the report leaves the details out exactly when the model's `reportIncomplete` says so
+    (`ok` = Drummer advertises a version for the shard, `k` = that version) -/
+theorem bridge_agentIncomplete (k cci : Nat) (pending : Bool) :
+    Gen.agent_incomplete true k cci pending = reportIncomplete (some k) cci pending ∧
+    Gen.agent_incomplete false k cci pending = reportIncomplete none cci pending := by
+  constructor <;> bridge
 
 /-! ### program order (lcm/process.go) and field facts (db.go, nodehostapi.go) -/
 theorem startWrite_ok : StartOK Gen.prog_StartWrite = true := by decide
